@@ -1281,3 +1281,304 @@ def gen_header(rnd, nmodels=(1, 2), flavours=None, maxdim=160, nmax=5):
         spec["ham"] = gm.gen_hamiltonian(rnd, spec["sites"], spec["qn_size"])
         models.append(spec)
     return {"models": models, "knobs": {}}
+
+
+# =====================================================================================================
+# C07: observables from the network vs dense definitions
+
+def _state_vector_layout(e):
+    """Tensor-part as a vector together with the per-index dimension list and, per site, the position of the
+    physical ('up') index in that list.  Mps: one index per site.  MpDm: (up, down) per site."""
+    pd = dense.pdims(e.obj.model)
+    if e.kind == "mps":
+        return dense.dense_mps_tensors(e.obj), list(pd), list(range(len(pd)))
+    m = dense.dense_mpo_tensors(e.obj)
+    dims = []
+    for p in pd:
+        dims += [p, p]
+    return dense.op_as_vector(m, pd), dims, [2 * i for i in range(len(pd))]
+
+
+def _rdm_ref(vec, dims, keep):
+    rho = dense.partial_trace_keep(vec, dims, keep)  # rho[a,b] = sum psi_a conj(psi_b)
+    return rho
+
+
+def _match_rdm(w, got, rho, inv, what, scale):
+    """Accept either index convention (rho or its transpose), see DESIGN: the documented formula and the electronic RDM
+    formula use opposite conventions; hermiticity makes them complex conjugates of each other."""
+    got = np.asarray(got)
+    if got.shape != rho.shape:
+        raise V({"C07"}, inv, f"{what}: shape {got.shape} vs {rho.shape}")
+    e1 = float(np.linalg.norm(got - rho))
+    e2 = float(np.linalg.norm(got - rho.T))
+    err = min(e1, e2)
+    w.stats.ratio(inv, err, 1e-9 * scale)
+    if err > 1e-9 * scale:
+        raise V({"C07"}, inv, f"{what}: differs from the dense partial trace by {err:.3e} (scale {scale:.3e})")
+    return 0 if e1 <= e2 else 1
+
+
+def _entropy_of(rho):
+    wv = np.linalg.eigvalsh((rho + rho.conj().T) / 2)
+    wv = np.where(wv > 0, wv, 0.0)
+    s = wv.sum()
+    return dense.vn_entropy_from_probs(wv / s) if s > 0 else 0.0
+
+
+@op("observe2")
+def op_observe2(w, s):
+    a = s["a"]
+    if not w.live_ok(a):
+        return "skipped"
+    e = w.h[a]
+    which = s["which"]
+    w.cur_op = "observe2:" + which
+    if e.kind == "mpo" or not nonzero(e):
+        return "skipped"
+    model = e.obj.model
+    n = len(e.obj)
+    pd = dense.pdims(model)
+    vec, dims, up = _state_vector_layout(e)
+    nrm2 = float(np.vdot(vec, vec).real)
+    if which == "expectations":
+        # a list of operators built from recorded specs (shared prefixes/suffixes, duplicates, one-site differences ...)
+        ops = []
+        refs = []
+        for ts in s["ops"]:
+            terms = [gm.build_op(t) for t in ts]
+            try:
+                mpo = Mpo(model, terms)
+            except ValueError:
+                continue
+            ops.append(mpo)
+            refs.append(dense.dense_op(model, terms))
+        for hmpo in s.get("pool", []):
+            if w.live_ok(hmpo) and w.h[hmpo].kind == "mpo" and w.h[hmpo].mid == e.mid:
+                ops.append(w.h[hmpo].obj)
+                refs.append(w.h[hmpo].shadow)
+        if s.get("order"):
+            order = [i % len(ops) for i in s["order"]] if ops else []
+            ops = [ops[i] for i in order]
+            refs = [refs[i] for i in order]
+        if not ops:
+            return "skipped"
+        bra = s.get("bra")
+        t = tens(e)
+        if bra is not None and w.live_ok(bra) and w.h[bra].kind == e.kind and w.h[bra].mid == e.mid:
+            tb = tens(w.h[bra])
+            bra_obj = w.h[bra].obj.conj()
+        else:
+            tb, bra_obj = t, None
+        want = []
+        for r in refs:
+            want.append(complex(tb.conj() @ (r @ t)) if e.kind == "mps" else complex(np.sum(tb.conj() * (r @ t))))
+        want = np.array(want)
+        sc = float(np.linalg.norm(t.ravel()) * np.linalg.norm(tb.ravel())) * max(float(np.linalg.norm(r, 2)) for r in refs)
+        hashbits = s.get("hashbits")
+        old_hash = None
+        if hashbits:
+            from renormalizer.mps.matrix import Matrix
+            old_hash = Matrix.__hash__
+            Matrix.__hash__ = lambda self_, _b=hashbits, _h=old_hash: _h(self_) & ((1 << _b) - 1)
+        try:
+            try:
+                fast = np.asarray(e.obj.expectations(ops, self_conj=bra_obj, opt=True))
+            except (RuntimeError, ValueError) as ex:
+                # a collision between tensors of different shapes surfaces as a broadcasting ValueError from the
+                # library's own collision test; both are loud refusals, never wrong numbers
+                if hashbits and ("collision" in str(ex) or "broadcast" in str(ex)):
+                    w.stats.faults["hash_collision_raised"] += 1
+                    fast = None
+                else:
+                    raise
+        finally:
+            if old_hash is not None:
+                Matrix.__hash__ = old_hash
+        slow = np.asarray(e.obj.expectations(ops, self_conj=bra_obj, opt=False))
+        for name, got in (("fast", fast), ("slow", slow)):
+            if got is None:
+                continue
+            if got.shape != want.shape:
+                raise V({"C07"}, "C07.expectations.shape", f"{name} path returned shape {got.shape} for {len(ops)} operators")
+            err = float(np.abs(got - want).max())
+            w.stats.ratio("C07.expectations", err, 1e-9 * max(sc, 1e-300))
+            if err > 1e-9 * max(sc, 1e-300):
+                k = int(np.argmax(np.abs(got - want)))
+                raise V({"C07"}, f"C07.expectations.{name}", f"expectations({name} path, {len(ops)} operators, hashbits={hashbits}): entry {k} is {got[k]!r}, dense {want[k]!r}",
+                        sig=f"C07.expectations.{name}")
+        if fast is not None:
+            d = float(np.abs(fast - slow).max())
+            if d > 1e-10 * max(sc, 1e-300):
+                raise V({"C07"}, "C07.expectations.fast_vs_slow", f"batched fast path differs from one-by-one path by {d:.3e}")
+            if hashbits:
+                w.stats.probes["hash_narrowed_fast_path_correct"] += 1
+        w.stats.probes["expectations_lists"] += 1
+        return "done"
+    if which == "occupations":
+        got_e = got_v = None
+        try:
+            if model.e_dofs:
+                got_e = np.asarray(e.obj.e_occupations)
+            if model.v_dofs:
+                got_v = np.asarray(e.obj.ph_occupations)
+        except ValueError as ex:
+            w.stats.probes["occupations_unsupported"] += 1
+            return "skipped"
+        t = tens(e)
+        from renormalizer.model import Op
+        for got, dofs, sym in ((got_e, model.e_dofs, r"a^\dagger a"), (got_v, model.v_dofs, "n")):
+            if got is None:
+                continue
+            want = []
+            for d in dofs:
+                r = dense.dense_op(model, [Op(sym, d)])
+                want.append(complex(t.conj() @ (r @ t)) if e.kind == "mps" else complex(np.sum(t.conj() * (r @ t))))
+            want = np.array(want)
+            err = float(np.abs(got - want).max()) if len(want) else 0.0
+            if err > 1e-9 * max(nrm2 * max(pd), 1e-300):
+                raise V({"C07"}, "C07.occupations", f"occupations ({sym}) {np.round(got, 8).tolist()} vs dense {np.round(want, 8).tolist()}")
+        w.stats.probes["occupations"] += 1
+        return "done"
+    if which == "rdm1":
+        idx = s.get("idx")
+        if idx is not None:
+            idx = [i % n for i in idx]
+        got = e.obj.calc_1site_rdm(idx if idx is None or len(idx) > 1 else idx[0])
+        sites = range(n) if idx is None else sorted(set(idx))
+        if sorted(got.keys()) != list(sites):
+            raise V({"C07"}, "C07.rdm1.keys", f"calc_1site_rdm({idx}) returned keys {sorted(got.keys())}")
+        conv = set()
+        for i in sites:
+            rho = _rdm_ref(vec, dims, [up[i]])
+            conv.add(_match_rdm(w, got[i], rho, "C07.rdm1", f"1-site RDM of site {i} ({e.kind})", max(nrm2, 1e-300)))
+        return "done"
+    if which == "rdm2":
+        if n < 2 or n > 5:
+            return "skipped"
+        got = e.obj.calc_2site_rdm()
+        want_keys = [(i, j) for i in range(n) for j in range(i + 1, n)]
+        if sorted(got.keys()) != want_keys:
+            raise V({"C07"}, "C07.rdm2.keys", f"calc_2site_rdm returned keys {sorted(got.keys())}")
+        for (i, j) in want_keys:
+            rho = _rdm_ref(vec, dims, [up[i], up[j]])
+            _match_rdm(w, got[(i, j)], rho, "C07.rdm2", f"2-site RDM ({i},{j}) ({e.kind})", max(nrm2, 1e-300))
+        return "done"
+    if which == "edof_rdm":
+        if e.kind != "mps" or not model.e_dofs or any(b.multi_dof for b in model.basis) or len(model.e_dofs) > 4:
+            return "skipped"
+        from renormalizer.model import Op
+        try:
+            got = np.asarray(e.obj.calc_edof_rdm())
+        except ValueError:
+            return "skipped"
+        t = tens(e)
+        ne = len(model.e_dofs)
+        want = np.zeros((ne, ne), dtype=complex)
+        for a_, d1 in enumerate(model.e_dofs):
+            for b_, d2 in enumerate(model.e_dofs):
+                r = dense.dense_op(model, [Op(r"a^\dagger a", [d1, d2])])
+                want[a_, b_] = complex(t.conj() @ (r @ t))
+        err = float(np.abs(got - want).max())
+        if err > 1e-9 * max(nrm2, 1e-300):
+            raise V({"C07"}, "C07.edof_rdm", f"electronic RDM differs from <a+_i a_j> by {err:.3e}")
+        return "done"
+    if which == "entropy":
+        kind = s["kind"]
+        if n < 2 or (kind in ("2site", "mutual") and n > 5):
+            return "skipped"
+        if e.kind == "mpdm" and kind == "bond":
+            return "skipped"
+        try:
+            got = e.obj.calc_entropy(kind)
+        except Exception as ex:
+            raise V({"C07"}, "C07.entropy.raised", f"calc_entropy({kind!r}) on {e.kind}: {type(ex).__name__}: {ex}", sig=f"C07.entropy.raised:{kind}:{type(ex).__name__}")
+        s1 = {i: _entropy_of(_rdm_ref(vec, dims, [up[i]])) for i in range(n)}
+        tol = 1e-7
+        if kind == "1site":
+            for i in range(n):
+                if abs(got[i] - s1[i]) > tol:
+                    raise V({"C07"}, "C07.entropy.1site", f"1-site entropy of site {i}: {got[i]!r} vs dense {s1[i]!r}")
+        elif kind in ("2site", "mutual"):
+            s2 = {(i, j): _entropy_of(_rdm_ref(vec, dims, [up[i], up[j]])) for i in range(n) for j in range(i + 1, n)}
+            if kind == "2site":
+                for k2, v in s2.items():
+                    if abs(got[k2] - v) > tol:
+                        raise V({"C07"}, "C07.entropy.2site", f"2-site entropy {k2}: {got[k2]!r} vs dense {v!r}")
+            else:
+                got = np.asarray(got)
+                for (i, j), v in s2.items():
+                    want = (s1[i] + s1[j] - v) / 2
+                    if abs(got[i, j] - want) > tol or abs(got[j, i] - want) > tol:
+                        raise V({"C07"}, "C07.entropy.mutual", f"mutual entropy ({i},{j}): {got[i, j]!r} vs dense {want!r}")
+        elif kind == "bond":
+            got = np.asarray(got)
+            sp = dense.schmidt_spectra(vec, dims)
+            if len(got) != n - 1:
+                raise V({"C07"}, "C07.entropy.bond", f"bond entropy has {len(got)} entries for {n} sites")
+            for k_ in range(n - 1):
+                p = sp[k_] ** 2
+                want = dense.vn_entropy_from_probs(p / p.sum())
+                if abs(got[k_] - want) > tol:
+                    raise V({"C07"}, "C07.entropy.bond", f"bond entropy at cut {k_ + 1}: {got[k_]!r} vs dense {want!r}")
+        w.stats.probes["entropy_" + kind] += 1
+        return "done"
+    raise HarnessError(which)
+
+
+def _obs_ops(rnd, spec):
+    """Operator-list specs with combinatorial structure: one-site families, pairs, duplicates, scaled copies."""
+    sites = spec["sites"]
+    qs = spec["qn_size"]
+    fam = []
+    kind = rnd.choice(["onsite", "pairs", "mixed", "dups"])
+    n = len(sites)
+    for _ in range(rnd.randint(2, 7)):
+        if kind == "onsite":
+            i = rnd.randrange(n)
+            sy, d, q, _h = gm.elementary(sites[i], rnd, qs, neutral_only=True)
+            fam.append([{"sym": sy, "dofs": [list(x) if isinstance(x, tuple) else x for x in d], "factor": [1.0, 0.0], "qn": q}])
+        elif kind == "pairs":
+            t = gm.gen_term(rnd, sites, qs, max_body=2, charge=[0] * qs)
+            if t:
+                fam.append([t])
+        elif kind == "dups":
+            t = gm.gen_term(rnd, sites, qs, max_body=2, charge=[0] * qs)
+            if t:
+                fam.append([t])
+                t2 = dict(t)
+                t2["factor"] = [t["factor"][0] * rnd.choice([1.0, 1.0, 2.0]), t["factor"][1]]
+                fam.append([t2])
+        else:
+            ts = gm.gen_terms(rnd, sites, qs, 1, 3, charge=[0] * qs)
+            if ts:
+                fam.append(ts)
+    return fam
+
+
+@prop("observe2")
+def p_observe2(w, rnd):
+    hs = w.handles(("mps", "mpdm"), pred=nonzero)
+    if not hs:
+        return None
+    a = rnd.choice(hs)
+    e = w.h[a]
+    which = rnd.choice(["expectations", "expectations", "occupations", "rdm1", "rdm2", "edof_rdm", "entropy"])
+    s = {"op": "observe2", "a": a, "which": which}
+    if which == "expectations":
+        s["ops"] = _obs_ops(rnd, w.model_specs[e.mid])
+        pool = w.handles("mpo", e.mid, pred=nonzero)
+        s["pool"] = [rnd.choice(pool) for _ in range(rnd.randint(0, 3))] if pool else []
+        if rnd.random() < 0.5:
+            s["order"] = [rnd.randrange(16) for _ in range(rnd.randint(2, 10))]
+        if rnd.random() < 0.3:
+            s["hashbits"] = rnd.choice([1, 2, 4, 8, 16])
+        if rnd.random() < 0.25:
+            bras = [b for b in w.handles(e.kind, e.mid, pred=nonzero) if np.all(np.asarray(w.h[b].obj.qntot) == np.asarray(e.obj.qntot))]
+            if bras:
+                s["bra"] = rnd.choice(bras)
+    elif which == "rdm1":
+        s["idx"] = rnd.choice([None, [rnd.randrange(8)], [rnd.randrange(8), rnd.randrange(8)]])
+    elif which == "entropy":
+        s["kind"] = rnd.choice(["1site", "2site", "mutual", "bond"])
+    return s
